@@ -4,7 +4,7 @@ from facts import (norm, call_name, short, subnodes, lit_value, matches_on, arm_
 from prov import Prov, has_field, has_call
 from templates import variant_table, enclosing_contexts, LOSSY_OR_REORDERING, inlined
 from tsrules import namespace_targets
-from c09 import all_elements, inl, member_type_pure, bag_all_targets, bag_renamer, scalar_map_precedence
+from c09 import all_elements, inl, member_type_pure, bag_all_targets, bag_renamer, scalar_map_precedence, rename_for_every_kind
 from c14 import stable_pred, sections, require_fields
 
 PR = "nitrogql_printer::"
@@ -211,6 +211,7 @@ def r10b(P, R):
         else:
             R.undecided("R10-b", "rename-on-clash", "make_local_type_names builds the identifier bag but no membership test on it was recognised", loc=ml0.loc())
         bag_all_targets(P, R, "R10-b")
+        rename_for_every_kind(P, R, "R10-b")
 
     def _part2():
         # type_names() lists every mapping of a config
@@ -660,8 +661,12 @@ def r10e(P, R):
                     R.undecided("R10-e", "input-readonly", "`readonly` of an input field is neither a literal nor a printer option", loc=g.loc())
             else:
                 R.check("R10-e", "input-readonly", ro is True, "input fields are readonly", "input fields are not readonly", loc=g.loc())
-        R.check("R10-e", "input-deep-readonly", any(c.get("k") == "MethodCall" and c["method"] == "into_readonly" for c in g.walk()),
-                "arrays inside input types are readonly", "into_readonly() is no longer applied to input field types", loc=g.loc())
+        # arrays inside input types are readonly: some function the input-object printer can reach (call graph, over-approximate) applies
+        # TSType::into_readonly — its absence from everything reachable is positive evidence, its place (here or in a shared helper) is not
+        ro_fn = P.fn(PR + "ts_types::TSType::into_readonly")
+        R.check("R10-e", "input-deep-readonly", ro_fn.path in P.reachable([g0]),
+                "arrays inside input types are readonly", "no function reachable from %s applies TSType::into_readonly any more: list-typed input "
+                "fields are declared as mutable arrays" % g0.path, loc=g.loc())
 
     def _part1():
         # every enum member and object field is emitted
